@@ -216,15 +216,27 @@ func (m *vmMachine) install() {
 		}
 		return Unmap(p)
 	}
-	mapFn = Map
-	translateFn = Translate
-	earlyReserveRegionFn = EarlyReserveRegion
-	visitElfSectionsFn = multiboot.VisitElfSections
+	mapFn = vmShipped.mapFn
+	translateFn = vmShipped.translateFn
+	earlyReserveRegionFn = vmShipped.earlyReserveRegionFn
+	visitElfSectionsFn = vmShipped.visitElfSectionsFn
 	earlyReserveLastUsed = tempMappingAddr
 	protectReservedZeroedPage = false
 	ReservedZeroedFrame = 0
 	kernelPDT = PageDirectoryTable{}
 }
+
+// vmShipped holds the seams as the package ships them, captured before any test touches them: which
+// function a seam points at by default is the package's business (the harness must not "restore" a
+// seam to a function it merely guesses to be the default).
+var vmShipped = struct {
+	mapFn                func(mm.Page, mm.Frame, PageTableEntryFlag) *kernel.Error
+	unmapFn              func(mm.Page) *kernel.Error
+	mapTemporaryFn       func(mm.Frame) (mm.Page, *kernel.Error)
+	translateFn          func(uintptr) (uintptr, *kernel.Error)
+	earlyReserveRegionFn func(uintptr) (uintptr, *kernel.Error)
+	visitElfSectionsFn   func(multiboot.ElfSectionVisitor)
+}{mapFn, unmapFn, mapTemporaryFn, translateFn, earlyReserveRegionFn, visitElfSectionsFn}
 
 // vmRestore puts the production functions back (end of a test function).
 func vmRestore() {
@@ -233,12 +245,12 @@ func vmRestore() {
 	flushTLBEntryFn = cpu.FlushTLBEntry
 	ptePtrFn = func(entryAddr uintptr) unsafe.Pointer { return unsafe.Pointer(entryAddr) }
 	nextAddrFn = func(entryAddr uintptr) uintptr { return entryAddr }
-	mapTemporaryFn = MapTemporary
-	unmapFn = Unmap
-	mapFn = Map
-	translateFn = Translate
-	earlyReserveRegionFn = EarlyReserveRegion
-	visitElfSectionsFn = multiboot.VisitElfSections
+	mapTemporaryFn = vmShipped.mapTemporaryFn
+	unmapFn = vmShipped.unmapFn
+	mapFn = vmShipped.mapFn
+	translateFn = vmShipped.translateFn
+	earlyReserveRegionFn = vmShipped.earlyReserveRegionFn
+	visitElfSectionsFn = vmShipped.visitElfSectionsFn
 	readCR2Fn = cpu.ReadCR2
 	earlyReserveLastUsed = tempMappingAddr
 	protectReservedZeroedPage = false
